@@ -34,7 +34,8 @@ LEVEL_TEXT = ("2-4 real send_message callers share one (read, write) pair on a v
               ' Also concurrent callers of the same param-less method whose requests the peer reads only after all were written.'
               ' Also per-request streams registered up front or in the same loop turn.'
               ' Also, on the per-request API, answers whose payload is false in Python ({} for a ping, [], 0, "", false) and callers whose ids are an integer and the string spelling it.'
-              " Also unrelated notifications that mention callers' ids (the peer's notifications/cancelled, a progress token equal to an id) in both tiers.")
+              " Also unrelated notifications that mention callers' ids (the peer's notifications/cancelled, a progress token equal to an id) in both tiers."
+              ' Also per-request callers that wait in 4 ms slices until their deadline.')
 LEVEL_NOTE = ("Trusted: virtual-time loop, anyio memory streams' FIFO waiter order, the oracle. The loss of "
               "out-of-order answers (consumed and discarded by another waiter) is a recorded known finding; "
               "every other loss mechanism and any cross-talk is a violation.")
